@@ -109,10 +109,20 @@ class NetSim(BaseEngine):
                     n = len(d['data'])
                     for _ in range(rng.randint(1, 2)):
                         rts.append([i, rng.randint(1, n + 1), pick(rng, model.RT_DEFINED)])
-            plan.update({'msgs': msgs, 'rt': rts, 'cuts': None,
+            cuts = None
+            if idx % 300 == 17:
+                # one connection carrying a long run of large sysex messages (only 1-byte messages in between)
+                msgs = []
+                for k in range(rng.randint(70, 90)):
+                    msgs.append({'type': 'sysex', 'data': [(k + i) % 128 for i in range(rng.randint(900, 1100))]})
+                    if rng.random() < 0.5:
+                        msgs.append({'type': pick(rng, ('clock', 'tune_request'))})
+                rts = []
+                cuts = [10 ** 9]
+            plan.update({'msgs': msgs, 'rt': rts, 'cuts': cuts,
                          'end': 'rst' if rng.random() < 0.2 else 'fin',
                          'segs': [[pick(rng, (0.0, 0.0, 0.0003, 0.002, 0.05)), pick(rng, (1, 1, 2, 3, 5, 64))]
-                                  for _ in range(rng.randint(1, 6))],
+                                  for _ in range(rng.randint(1, 6))] if cuts is None else [[0.001, 4096]],
                          'fin_dt': pick(rng, (0.0, 0.0, 0.001, 0.1)),
                          'consumer': pick(rng, CONSUMERS), 'via': pick(rng, ('conn', 'connect')),
                          'poll_advance': pick(rng, (0.0005, 0.004, 0.3))})
@@ -732,10 +742,22 @@ class NetSim(BaseEngine):
             stats['probe:server_burst_over_1024_messages'] += int(sum(cl.get('bulk', 0) for cl in plan['clients']) > 1024)
         sim = clock.now - clock.start
         clock.horizon = float('inf')
-        try:
-            server.close()
-        except Exception:
-            pass
+        # closing the server port must be seen as a disconnect by every client that is still connected
+        r = self._guard('server.close', server.close)
+        if r[0] != 'ok':
+            raise Violation('server:close-never-returned', 'PortServer.close() did not return')
+        while net.next_event_time() is not None:
+            clock.now = max(clock.now, net.next_event_time())
+            net.pump()
+        for ci, (cl, state) in enumerate(zip(plan['clients'], streams)):
+            raw = state.get('raw')
+            if raw is None or cl['disconnect'] or raw.rx is None:
+                continue
+            if not (raw.rx.eof or raw.rx.rst):
+                raise Violation('server:close-not-seen-by-client',
+                                f'the server port was closed but client {ci} (of {len(plan["clients"])}) never reached '
+                                f'end-of-stream')
+            stats['probe:server_close_seen_by_client'] += 1
         return sim
 
     # ------------------------------------------------------------------ shrinking
@@ -811,7 +833,8 @@ class NetSim(BaseEngine):
     def probe_names(self, prop):
         return ['cut_inside_message', 'cut_at_boundary', 'cut_at_0', 'cut_at_L', 'eof_seen_while_messages_queued',
                 'client_data_before_accept', 'close_seen_by_peer', 'rst_mid_message',
-                'server_poll_with_two_clients', 'server_blocking_receive', 'server_burst_over_1024_messages']
+                'server_poll_with_two_clients', 'server_blocking_receive', 'server_burst_over_1024_messages',
+                'server_close_seen_by_client']
 
 
 ENGINE = NetSim()
